@@ -79,6 +79,12 @@ func (r *Rollback) Run(name string) error {
 
 	slog.Debug("performing rollback", "name", name)
 	if _, err := r.performRollback(currentRelease, targetRelease); err != nil {
+		// Do not leave the new revision pending when the rollback failed
+		// before its outcome was recorded (e.g. a failing hook).
+		if !r.DryRun && targetRelease.Info.Status == release.StatusPendingRollback {
+			targetRelease.SetStatus(release.StatusFailed, fmt.Sprintf("Rollback %q failed: %s", targetRelease.Name, err))
+			r.cfg.recordRelease(targetRelease)
+		}
 		return err
 	}
 
